@@ -851,7 +851,9 @@ func runFullWorld(run *sim.Run, wi int, nBlocks int) {
 	defer w.Close()
 	app := w.App
 	block := 0
-	desc := func() map[string]any { return map[string]any{"mode": "full", "world": wi, "block": block, "height": w.Height + 1} }
+	desc := func() map[string]any {
+		return map[string]any{"mode": "full", "world": wi, "block": block, "height": w.Height + 1}
+	}
 	dead := false
 	rep := func(key, what string) { run.Violation("full-"+key, what, desc()) }
 
